@@ -47,9 +47,9 @@ class C15(Prop):
                    'merge (self then other\'s new attributes; size(merge) = size(self)*size(extra)), contains, size / size(attrs) / size(str), canonical, sort by size and name '
                    '(permutation, non-decreasing key), __eq__, fromdict, __contains__, __getitem__, __iter__, __len__ and the set / product laws linking them.')
     rule = ('dataset case = (shape tuple: all 84 tuples of 1..3 sizes in 1..4) x (record mode: random, dups, boundary, empty) x (weights: none, float, float-with-zeros) x '
-            '(extra unused columns: 0 or 2) x seeds (quick 1, thorough 30); attribute names, their order, the column order, dtype and the records are drawn from the case seed; '
+            '(extra unused columns: 0 or 2) x seeds (quick 1, thorough 20); attribute names, their order, the column order, dtype and the records are drawn from the case seed; '
             'every ordered projection list and every proper drop set of the domain is evaluated inside the case. domain case = two seeded random domains over an 8-name pool '
-            '(0..5 and 0..4 attributes, sizes 1..5, shared attributes agree) with seeded attribute lists incl. foreign names (quick 4032, thorough 60480). '
+            '(0..5 and 0..4 attributes, sizes 1..5, shared attributes agree) with seeded attribute lists incl. foreign names (quick 4032, thorough 40320). '
             'Records conform to the domain (values in 0..size-1). Not exhaustive: values, names and orders are random samples. '
             'non-trivial: dataset case with >= 1 record and >= 2 cells, domain case with >= 2 attributes in the first domain; distinct by the full case dict.')
     trusted_base = ['counting oracle: plain Python loops over the generated records (pv/props/C15.py)', 'pv/bounded/factor_oracle.py for marginalise/transpose by attribute name',
@@ -70,7 +70,7 @@ class C15(Prop):
     def cases(self, tier, seed):
         import numpy as np
         rng = np.random.RandomState(seed)
-        n_seeds, n_dom = (1, 4032) if tier == 'quick' else (30, 60480)
+        n_seeds, n_dom = (1, 4032) if tier == 'quick' else (20, 40320)
 
         def dataset_case(shape, mode, w, extra):
             names = [str(x) for x in rng.permutation(list(NAMES))[:len(shape)]]
